@@ -7,7 +7,11 @@ from harness.common import coq_list, coq_Z
 def run(ctx):
     ctx.rule = ("configurations = (version range, vocab range) for each side within 1..3 / 0..1, both tub-id orders, "
                 "real Tub+Negotiation pair on an in-memory network; non-trivial = distinct configuration in which both "
-                "sides completed or failed negotiation (not a harness error); plus chunked and malformed-block runs; "
+                "sides completed or failed negotiation (not a harness error); every configuration is judged on the Brokers each end CREATED "
+                "(recording brokerClass) and on the failure class the dialling end's caller got; hash-mismatch family: the decision's table hash "
+                "rewritten in flight for the configurations that offer table 1 x every other configuration x both tub-id orders, dialled by "
+                "the decider and by the non-decider in turn (at least 20 must reach the hash comparison) + the fixed witness of "
+                "C13_agreement_two_way_refuted; plus chunked and malformed-block runs; "
                 "damaged-line family: every 'key: value' line of every block of a recorded undamaged attempt x 7 ways of losing the "
                 "separator x both tub-id orders (fixed, no random choice), judged on the Brokers each end CREATES; the same blocks "
                 "and random headers against Negotiation.parseLines directly")
@@ -54,7 +58,8 @@ def run(ctx):
     from harness import c13_codec as _codec
     _codec.parse_oracle(ctx)
     if not ok:
-        found = len(ctx.failures) > failures_before
+        # a KNOWN finding of the unchanged tree is not 'a failing input found' for the change that broke the proofs
+        found = any(f["sig"] != impl.DECIDER_SWITCHED for f in ctx.failures[failures_before:])
         ctx.fail("proof-broken", "the Coq development for C13 no longer builds against the regenerated "
                  "gen/NegotiateGen.v (theorem closure props/C13.vo):\n" + tail(log), replay=dict(log=tail(log, 6000)),
                  has_input=False) if not found else None
@@ -74,7 +79,9 @@ def ep(idn, r, tamper=None):
 
 
 def correspond(ctx, cases):
-    """cases: list of dict(ra, rb, a_is_higher, tamper, obs=(pa, pb)) where pa/pb = None | (version, vocabindex)"""
+    """cases: list of dict(ra, rb, a_high, tamper, obs = c13_impl.observed (per end: no Broker created / created and connected / created
+    and then lost), caller = c13_impl.caller_code (which end dialled, what its caller got)); compared with Negotiate.negotiate:
+    outcome of each end AND the failure tag of the dialling end"""
     lines = []
     for c in cases:
         ia, ib = (98, 97) if c["a_high"] else (97, 98)
@@ -83,9 +90,16 @@ def correspond(ctx, cases):
         tb = c["tamper"] if not c["a_high"] else None
         lines.append("(%s, %s)" % (ep(ia, c["ra"], ta), ep(ib, c["rb"], tb)))
     body = """
-Definition code (o : outcome) : list Z := match o with Banana p => [1; p_version p; p_vocab p]%Z | Failed _ => [0]%Z end.
+Definition code (o : outcome) : list Z :=
+  match o with Banana p => [1; p_version p; p_vocab p]%Z | Failed _ => [0]%Z | SwitchedThenLost p => [2; p_version p; p_vocab p]%Z end.
+Definition tag (o : outcome) : Z :=
+  match o with
+  | Banana _ => 0
+  | Failed w => if String.eqb w "NegotiationError" then 1 else if String.eqb w "RemoteNegotiationError" then 2 else 9
+  | SwitchedThenLost _ => 3
+  end%Z.
 Definition cases : list (endpoint * endpoint) := """ + coq_list(lines) + """.
-Eval vm_compute in map (fun c => let '(oa, ob) := negotiate (fst c) (snd c) in (code oa, code ob)) cases.
+Eval vm_compute in map (fun c => let '(oa, ob) := negotiate (fst c) (snd c) in (code oa, code ob, (tag oa, tag ob))) cases.
 """
     try:
         (vals,) = ctx.coq_eval("C13_cases", body, requires=["Verif.lib.PyLite", "Verif.gen.NegotiateGen", "Verif.lib.Negotiate"])
@@ -93,16 +107,25 @@ Eval vm_compute in map (fun c => let '(oa, ob) := negotiate (fst c) (snd c) in (
         ctx.fail("correspondence-broken", "the model could not be evaluated: " + str(e)[-1500:], has_input=False)
         return
     nbad = 0
-    for c, (ma, mb) in zip(cases, vals):
-        exp = lambda p: [0] if p is None else [1, p[0], p[1]]
+
+    def exp(o):
+        # what an end came to on the real code (c13_impl.observed): no Broker created / Broker created and connected / Broker
+        # created, connection lost afterwards
+        return [0] if o == ("failed",) else [1, o[1], o[2]] if o[0] == "banana" else [2, o[1], o[2]] if o[0] == "lost" else ["?", repr(o)]
+    for c, (ma, mb, (ta, tb)) in zip(cases, vals):
         ia, ib = exp(c["obs"][0]), exp(c["obs"][1])
+        a_dialled, got = c["caller"]
+        mtag = ta if a_dialled else tb
         ctx.traces += 1
-        if ia != ma or ib != mb:
+        ctx.hist("correspondence_outcome", "%s/%s caller:%s" % (ma[0], mb[0], got))
+        if ia != ma or ib != mb or got != mtag:
             nbad += 1
             if nbad <= 3:
-                ctx.fail("correspondence/negotiate", "model and implementation disagree on %r: model %r/%r, implementation %r/%r"
-                         % ({k: c[k] for k in ("ra", "rb", "a_high", "tamper")}, ma, mb, ia, ib),
-                         replay=dict(case={k: c[k] for k in ("ra", "rb", "a_high", "tamper")}, model=[ma, mb], impl=[ia, ib]),
+                ctx.fail("correspondence/negotiate", "model and implementation disagree on %r: model %r/%r (caller's end: %r), implementation "
+                         "%r/%r (caller got %r) [0 = abandoned without a Broker, 1 v t = switched, 2 v t = switched and then lost the "
+                         "connection; caller: 0 call returned, 1 NegotiationError, 2 RemoteNegotiationError, 3 lost connection]"
+                         % ({k: c[k] for k in ("ra", "rb", "a_high", "tamper")}, ma, mb, mtag, ia, ib, got),
+                         replay=dict(case={k: c[k] for k in ("ra", "rb", "a_high", "tamper")}, model=[ma, mb, mtag], impl=[ia, ib, got]),
                          has_input=False)
     ctx.extra["correspondence_cases"] = len(cases)
     ctx.extra["correspondence_disagreements"] = nbad
@@ -259,10 +282,12 @@ def replay(ctx, data):
             ctx.case(["split-replay"])
             scases = impl.splitter(ctx)
         elif "ra" in cfg:
-            pa, pb, res = impl.trial(tuple(cfg["ra"]), tuple(cfg["rb"]), cfg["a_high"])
-            print("A:", pa, "B:", pb, "result:", res)
-            exp = impl.expected(tuple(cfg["ra"]), tuple(cfg["rb"]))
-            impl.judge(ctx, "replay", cfg, pa, pb, res, exp if exp else False)
+            cfg = dict(cfg, ra=tuple(cfg["ra"]), rb=tuple(cfg["rb"]))
+            dial = cfg.get("dial") or ("a" if (rp.get("dialer", "decider") == "decider") == bool(cfg["a_high"]) else "b")
+            pa, pb, res = impl.trial(cfg["ra"], cfg["rb"], cfg["a_high"], mangle=impl.swap_hash if cfg.get("tamper") == "hash" else None,
+                                     dial_from=dial)
+            print("A:", pa, "B:", pb, "created:", impl.trial.created, "result:", res)
+            impl.judge_created(ctx, "replay", cfg, pa, pb, res, impl.expected(cfg["ra"], cfg["rb"]))
             ctx.case(["replay", cfg])
         else:
             print("note: replay kind not recognised; running the malformed, damaged-line and coalesced families")
